@@ -141,6 +141,10 @@ func Files() []File {
 	ext.Msgs = append(ext.Msgs, M{Name: "Decl3", Fields: []F{{Name: "d", Num: 1, Kind: "int32", Card: "opt"}}, Exts: []X{
 		{Extendee: "Base", F: F{Name: "e4_int32", Num: 180, Kind: "int32", Card: "opt", Default: "42"}},
 		{Extendee: "Base", F: F{Name: "e4_string", Num: 181, Kind: "string", Card: "opt", Default: "dflt"}}}})
+	// ... and inside a nested message that FOLLOWS a map field's (synthetic) entry message in its parent's nested-type list
+	ext.Msgs = append(ext.Msgs, M{Name: "WithMap", Fields: []F{{Name: "counts", Num: 1, Kind: "map", MapKey: "string", MapVal: "int32"}},
+		Nested: []M{{Name: "Inner", Fields: []F{{Name: "q", Num: 1, Kind: "int32", Card: "opt"}},
+			Exts: []X{{Extendee: "Base", F: F{Name: "e5_string", Num: 182, Kind: "string", Card: "opt"}}}}}})
 	ext.Exts = []X{{Extendee: "Base", F: F{Name: "f_int64", Num: 160, Kind: "int64", Card: "opt"}},
 		{Extendee: "Base", F: F{Name: "f_msg", Num: 161, Kind: "message", Card: "opt", Type: "Leaf"}}}
 	files = append(files, ext)
